@@ -10,6 +10,7 @@ import (
 	"github.com/pion/rtcp"
 	"github.com/pion/rtp"
 
+	"github.com/bluenviron/gortsplib/v5/internal/verifyield"
 	"github.com/bluenviron/gortsplib/v5/pkg/description"
 	"github.com/bluenviron/gortsplib/v5/pkg/format"
 	"github.com/bluenviron/gortsplib/v5/pkg/headers"
@@ -113,6 +114,7 @@ func (st *ServerStream) Initialize() error {
 
 // Close closes a ServerStream.
 func (st *ServerStream) Close() {
+	verifyield.Point("stream.Close.beforeLock")
 	st.mutex.Lock()
 
 	st.closed = true
@@ -356,6 +358,7 @@ func (st *ServerStream) readerAdd(
 }
 
 func (st *ServerStream) readerRemove(ss *ServerSession) {
+	verifyield.Point("stream.readerRemove.beforeLock")
 	st.mutex.Lock()
 	defer st.mutex.Unlock()
 
@@ -381,6 +384,7 @@ func (st *ServerStream) readerRemoveUnsafe(ss *ServerSession) {
 }
 
 func (st *ServerStream) readerSetActive(ss *ServerSession) {
+	verifyield.Point("stream.readerSetActive.beforeLock")
 	st.mutex.Lock()
 	defer st.mutex.Unlock()
 
@@ -400,6 +404,7 @@ func (st *ServerStream) readerSetActive(ss *ServerSession) {
 }
 
 func (st *ServerStream) readerSetInactive(ss *ServerSession) {
+	verifyield.Point("stream.readerSetInactive.beforeLock")
 	st.mutex.Lock()
 	defer st.mutex.Unlock()
 
